@@ -80,7 +80,7 @@ macro "typed_nodup" h:ident : tactic => `(tactic| (
     | apply nodup_typed_setCurveTypeR
     | apply nodup_typed_setCurveTypeOR
     | simp only [addUsage_typed, addUsageO_typed, removeUsageT_typed, removeUsageO_typed, popUsageKey_typed, setUsage_typed,
-        bumpUid_typed, dropControls_typed, removeUserAll_typed, removeUserAllO_typed])))
+        bumpUid_typed, dropControls_typed, removeUserAll_typed, removeUserAllO_typed, releaseAll_typed])))
 
 /-- `Clause.nodup` of a state built from `s` by the primitives, from `Clause.nodup s` -/
 macro "reg_nodup" h:ident : tactic => `(tactic| (
@@ -145,8 +145,13 @@ theorem assignDemandR_nodup (s : Reg) (n p : Name) (i : NodeInfo) (hp : p ∉ s.
   unfold assignDemandR
   rw [nodup_iff] at *
   obtain ⟨h1, h2, h3, h4, h5, h6⟩ := h
-  refine ⟨AL.nodup_keys_set _ _ _ h1, h2, List.Nodup.append h3 (List.nodup_singleton p) (by simpa using hp), h4, h5, ?_⟩
-  typed_nodup h6
+  refine ⟨?_, ?_, ?_, ?_, ?_, ?_⟩
+  · reg_norm; exact AL.nodup_keys_set _ _ _ h1
+  · reg_norm; exact h2
+  · reg_norm; exact List.Nodup.append h3 (List.nodup_singleton p) (by simpa using hp)
+  · reg_norm; exact h4
+  · reg_norm; exact h5
+  · typed_nodup h6
 theorem clearDemandsR_nodup (s : Reg) (n : Name) (i : NodeInfo) (h : Clause.nodup s) : Clause.nodup (clearDemandsR s n i) := by
   unfold clearDemandsR; reg_nodup h
 theorem renameSourceR_nodup (s : Reg) (old new : Name) (si : SourceInfo) (h : Clause.nodup s) : Clause.nodup (renameSourceR s old new si) := by
@@ -159,6 +164,8 @@ theorem renameSourceR_nodup (s : Reg) (old new : Name) (si : SourceInfo) (h : Cl
   · reg_norm; exact h3
   · reg_norm; exact h4
   · typed_nodup h6
+theorem insertDemandR_nodup (s : Reg) (n : Name) (idx : Nat) (pat : Option Name) (i : NodeInfo) (h : Clause.nodup s) : Clause.nodup (insertDemandR s n idx pat i) := by
+  unfold insertDemandR; reg_nodup h
 theorem delNodeR_nodup (s : Reg) (key : Name) (i : NodeInfo) (h : Clause.nodup s) : Clause.nodup (delNodeR s key i) := by
   unfold delNodeR; reg_nodup h
 theorem delLinkR_nodup (s : Reg) (key : Name) (i : LinkInfo) (h : Clause.nodup s) : Clause.nodup (delLinkR s key i) := by
@@ -207,6 +214,11 @@ theorem removeUsageO_usage_ne (s : Reg) (r r' : RegId) (k : Option Name) (u : Us
 theorem popUsageKey_usage_ne (s : Reg) (r r' : RegId) (k : Name) (h : r' ≠ r) : (popUsageKey s r k).usage r' = s.usage r' := by
   unfold popUsageKey; rw [setUsage_usage, if_neg h]
 
+theorem releaseAll_usage_ne (s : Reg) (r r' : RegId) (ks : List Name) (u : User) (h : r' ≠ r) :
+    (releaseAll s r ks u).usage r' = s.usage r' := by
+  unfold releaseAll
+  exact foldl_removeUsageT_frame (fun x => x.usage r') (fun a k => removeUsageT_usage_ne a r r' k u h) _ s
+
 theorem removeUserAll_usage_ne (s : Reg) (r r' : RegId) (u : User) (h : r' ≠ r) : (removeUserAll s r u).usage r' = s.usage r' := by
   unfold removeUserAll
   exact foldl_removeUsageT_frame (fun x => x.usage r') (fun a k => removeUsageT_usage_ne a r r' k u h) _ s
@@ -217,7 +229,7 @@ theorem removeUserAllO_usage_ne (s : Reg) (r r' : RegId) (u : Option User) (h : 
   | some u => exact removeUserAll_usage_ne s r r' u h
 
 macro "reg_obj" : tactic => `(tactic| simp (disch := decide) only [addUsage_usage_ne, addUsageO_usage_ne, removeUsageT_usage_ne,
-  removeUsageO_usage_ne, popUsageKey_usage_ne, removeUserAll_usage_ne, removeUserAllO_usage_ne, typedAdd_usage, typedDiscard_usage, typedAddAll_usage, typedDiscardAll_usage,
+  removeUsageO_usage_ne, popUsageKey_usage_ne, removeUserAll_usage_ne, removeUserAllO_usage_ne, releaseAll_usage_ne, typedAdd_usage, typedDiscard_usage, typedAddAll_usage, typedDiscardAll_usage,
   setNode_usage, setLink_usage, bumpUid_usage, dropControls_usage, setCurveTypeR_usage, setCurveTypeOR_usage])
 
 theorem addJunctionR_obj (s : Reg) (n : Name) (p : Option Name) : (addJunctionR s n p).usage .patternObj = s.usage .patternObj := by
@@ -254,6 +266,8 @@ theorem clearDemandsR_obj (s : Reg) (n : Name) (i : NodeInfo) : (clearDemandsR s
   unfold clearDemandsR; reg_obj
 theorem renameSourceR_obj (s : Reg) (old new : Name) (si : SourceInfo) : (renameSourceR s old new si).usage .patternObj = s.usage .patternObj := by
   unfold renameSourceR; reg_obj
+theorem insertDemandR_obj (s : Reg) (n : Name) (idx : Nat) (pat : Option Name) (i : NodeInfo) : (insertDemandR s n idx pat i).usage .patternObj = s.usage .patternObj := by
+  unfold insertDemandR; reg_obj
 theorem delNodeR_obj (s : Reg) (key : Name) (i : NodeInfo) : (delNodeR s key i).usage .patternObj = s.usage .patternObj := by
   unfold delNodeR; reg_obj
 theorem delLinkR_obj (s : Reg) (key : Name) (i : LinkInfo) : (delLinkR s key i).usage .patternObj = s.usage .patternObj := by
@@ -336,6 +350,10 @@ theorem nodup_ulook_removeUserAllO (s : Reg) (r r' : RegId) (k' : Name) (u : Opt
   | none => exact h
   | some u => exact nodup_ulook_foldl_removeUsageT _ s r r' k' u h
 
+theorem nodup_ulook_releaseAll (s : Reg) (r r' : RegId) (ks : List Name) (k' : Name) (u : User)
+    (h : (ulook (s.usage r') k').Nodup) : (ulook ((releaseAll s r ks u).usage r') k').Nodup := by
+  unfold releaseAll; exact nodup_ulook_foldl_removeUsageT ks s r r' k' u h
+
 /-- close `UsageNodup (prim (prim ... s))` from `h : UsageNodup s` -/
 macro "usage_nodup" h:ident : tactic => `(tactic| (
   intro r k
@@ -346,12 +364,13 @@ macro "usage_nodup" h:ident : tactic => `(tactic| (
     | apply nodup_ulook_removeUsageO
     | apply nodup_ulook_popUsageKey
     | apply nodup_ulook_removeUserAllO
+    | apply nodup_ulook_releaseAll
     | simp only [typedAdd_usage, typedDiscard_usage, typedAddAll_usage, typedDiscardAll_usage,
         setNode_usage, setLink_usage, bumpUid_usage, dropControls_usage, setCurveTypeR_usage, setCurveTypeOR_usage]
     | exact $h r k)))
 
 section
-attribute [local irreducible] addUsage addUsage? removeUsageT removeUsageO popUsageKey removeUserAllO removeUserAll typedDiscardAll typedAddAll typedAdd
+attribute [local irreducible] addUsage addUsage? removeUsageT removeUsageO popUsageKey removeUserAllO removeUserAll releaseAll typedDiscardAll typedAddAll typedAdd
   typedDiscard setLink setNode setCurveType setCurveType? bumpUid dropControls
 
 theorem addJunctionR_usageNodup (s : Reg) (n : Name) (p : Option Name) (h : UsageNodup s) : UsageNodup (addJunctionR s n p) := by
@@ -388,6 +407,8 @@ theorem clearDemandsR_usageNodup (s : Reg) (n : Name) (i : NodeInfo) (h : UsageN
   unfold clearDemandsR; usage_nodup h
 theorem renameSourceR_usageNodup (s : Reg) (old new : Name) (si : SourceInfo) (h : UsageNodup s) : UsageNodup (renameSourceR s old new si) := by
   unfold renameSourceR; usage_nodup h
+theorem insertDemandR_usageNodup (s : Reg) (n : Name) (idx : Nat) (pat : Option Name) (i : NodeInfo) (h : UsageNodup s) : UsageNodup (insertDemandR s n idx pat i) := by
+  unfold insertDemandR; usage_nodup h
 theorem delNodeR_usageNodup (s : Reg) (key : Name) (i : NodeInfo) (h : UsageNodup s) : UsageNodup (delNodeR s key i) := by
   unfold delNodeR; usage_nodup h
 theorem delLinkR_usageNodup (s : Reg) (key : Name) (i : LinkInfo) (h : UsageNodup s) : UsageNodup (delLinkR s key i) := by
